@@ -84,8 +84,27 @@ func avroTypesOf(P *Program) map[string]map[string]bool {
 		}
 		return r
 	}
-	root := e.byFn[P.Func(P.Avro, "buildCodec")]
-	if root != nil && root.Schema != nil {
+	// dispatcherLike: a builder that itself switches on its schema's type and hands on to per-type builders
+	// (the schema-type half of a dispatcher that was split in two)
+	dispatcherLike := func(b *Builder) bool {
+		if b == nil || b.Schema == nil {
+			return false
+		}
+		sp := "*(&" + b.Schema.Name() + "->Type)"
+		n := 0
+		for _, p := range b.Paths {
+			ret := P.classifyReturn(p)
+			if _, exact, _ := p.State.strOf(sp); exact && (ret.Delegate != nil || ret.Codec != nil) {
+				n++
+			}
+		}
+		return n >= 3
+	}
+	var walkRoot func(root *Builder, d int)
+	walkRoot = func(root *Builder, d int) {
+		if root == nil || root.Schema == nil || d > 2 {
+			return
+		}
 		sp := "*(&" + root.Schema.Name() + "->Type)"
 		for _, p := range root.Paths {
 			ret := P.classifyReturn(p)
@@ -101,6 +120,10 @@ func avroTypesOf(P *Program) map[string]map[string]bool {
 			}
 			st, exact, _ := p.State.strOf(sp)
 			callee := e.byFn[ret.Delegate.Call.StaticCallee()]
+			if dispatcherLike(callee) {
+				walkRoot(callee, d+1)
+				continue
+			}
 			for _, ct := range returned(callee, map[*Builder]bool{}) {
 				if exact {
 					add(ct, st)
@@ -110,6 +133,7 @@ func avroTypesOf(P *Program) map[string]map[string]bool {
 			}
 		}
 	}
+	walkRoot(e.byFn[P.Func(P.Avro, "buildCodec")], 0)
 	for _, b := range e.Builders {
 		if !builderIsRegistered(P, b) || b.Schema == nil {
 			continue
